@@ -158,7 +158,7 @@ class Batch:
         cmds, hfiles = [], []
         sd = core.scratch_dir()
         for w in range(W):
-            hf = os.path.join(sd, "hashes.%d.%s.%d" % (os.getpid(), self.name, w))
+            hf = os.path.join(sd, "hashes.%d.%s.%d.%d" % (os.getpid(), self.name, w, id(self)))
             hfiles.append(hf)
             c = [self.exe, "run", "--prop", self.prop, "--cfg", self.cfg, "--seed", str(self.seed), "--start", str(self.start + w),
                  "--stride", str(W), "--count", str(per), "--hashes-out", hf]
